@@ -139,6 +139,20 @@ PROPS["C04"] = {
         {"name": "fam-w64-638", "world": "W64-638", "src": "props/C04_fam.c", "tiers": ("thorough",), "args": ["--only", "c04-"]},
         {"name": "fam-w64-575q", "world": "W64-575q", "src": "props/C04_fam.c", "tiers": ("thorough",), "args": ["--only", "c04-"]},
         {"name": "fam-w64-544", "world": "W64-544", "src": "props/C04_fam.c", "tiers": ("thorough",), "args": ["--only", "c04-"]},
+        {"name": "probe-158", "world": "W64-158", "src": "props/C04_fam.c", "tiers": ("never",)},  # PROBE
+        {"name": "probe-254", "world": "W64-254", "src": "props/C04_fam.c", "tiers": ("never",)},  # PROBE
+        {"name": "probe-317", "world": "W64-317", "src": "props/C04_fam.c", "tiers": ("never",)},  # PROBE
+        {"name": "probe-354", "world": "W64-354", "src": "props/C04_fam.c", "tiers": ("never",)},  # PROBE
+        {"name": "probe-377", "world": "W64-377", "src": "props/C04_fam.c", "tiers": ("never",)},  # PROBE
+        {"name": "probe-382", "world": "W64-382", "src": "props/C04_fam.c", "tiers": ("never",)},  # PROBE
+        {"name": "probe-383", "world": "W64-383", "src": "props/C04_fam.c", "tiers": ("never",)},  # PROBE
+        {"name": "probe-455", "world": "W64-455", "src": "props/C04_fam.c", "tiers": ("never",)},  # PROBE
+        {"name": "probe-508", "world": "W64-508", "src": "props/C04_fam.c", "tiers": ("never",)},  # PROBE
+        {"name": "probe-509", "world": "W64-509", "src": "props/C04_fam.c", "tiers": ("never",)},  # PROBE
+        {"name": "probe-510", "world": "W64-510", "src": "props/C04_fam.c", "tiers": ("never",)},  # PROBE
+        {"name": "probe-765", "world": "W64-765", "src": "props/C04_fam.c", "tiers": ("never",)},  # PROBE
+        {"name": "probe-766", "world": "W64-766", "src": "props/C04_fam.c", "tiers": ("never",)},  # PROBE
+        {"name": "probe-768", "world": "W64-768", "src": "props/C04_fam.c", "tiers": ("never",)},  # PROBE
     ],
 }
 
